@@ -3,6 +3,9 @@ mod checks;
 mod common;
 mod doc;
 mod form;
+mod gen;
+mod hdr;
+mod meta;
 mod qml;
 mod translate;
 mod vtypes;
